@@ -285,6 +285,77 @@ def gen_multi_case(rng, i, version, tier):
                                                             "kind": "multi-%s%dd" % ("rec" if isrec else "fix", nd), "feat": (version, "multi", isrec, nd)})
 
 
+def gen_safe_case(rng, i, version, tier, EC):
+    """safe mode, 2-3 ranks, collective puts on a fixed 2-D variable: a request that is invalid on ONE rank makes the call
+    fail with the same (minimum) code on EVERY rank before any I/O: no byte of the file may change"""
+    nprocs = rng.choice([2, 2, 3])
+    lens = [rng.randint(2, 4), rng.randint(2, 4)]
+    sc = Script()
+    path = "s:@OUT@/c15.nc"
+    sc.add("*", "create", f=0, path=path, cmode=FMT_CMODE[version], info="romio_ds_write:disable")
+    sc.add("*", "def_dim", f=0, name="s:t", len=0)
+    sc.add("*", "def_dim", f=0, name="s:d0", len=lens[0])
+    sc.add("*", "def_dim", f=0, name="s:d1", len=lens[1])
+    xt = rng.choice([3, 4, 5, 6])
+    mtname = {3: "short", 4: "int", 5: "float", 6: "double"}[xt]
+    xsz = cs.XSZ[xt]
+    sc.add("*", "def_var", f=0, name="s:before", xtype=4, dimids="1", ndims=1)
+    sc.add("*", "def_var", f=0, name="s:brec", xtype=3, dimids="0", ndims=1)
+    sc.add("*", "def_var", f=0, name="s:target", xtype=xt, dimids="1,2", ndims=2)
+    sc.add("*", "def_var", f=0, name="s:after", xtype=4, dimids="1", ndims=1)
+    sc.add("*", "enddef", f=0)
+    sc.add("*", "put", f=0, v=0, form="var", mt="int", coll=1, data="hex:" + "11" * 4 * lens[0])
+    sc.add("*", "put", f=0, v=3, form="var", mt="int", coll=1, data="hex:" + "22" * 4 * lens[0])
+    sc.add("*", "sync", f=0)
+    sc.add("*", "barrier")
+    sc.add(0, "snapshot", path=path, tag="init")
+    sc.add(0, "fsnap", path=path, slot=0)
+    sc.add("*", "barrier")
+    shape = list(lens)
+    reqs = []
+
+    def one(valid):
+        for _ in range(50):
+            if valid:
+                st = [rng.randint(0, L - 1) for L in shape]
+                ct = [rng.randint(1, L - s0) for s0, L in zip(st, shape)]
+                sd = None if rng.random() < 0.5 else [1, 1]
+            else:
+                st = [rng.randint(-1, L + 1) for L in shape]
+                ct = [rng.randint(-1, L + 1) for L in shape]
+                sd = rng.choice([None, None, [1, 1], [rng.choice([-1, 0, 1, 2]), rng.choice([0, 1, 2, 3])]])
+            want = applicable(shape, False, 0, True, True, st, ct, sd)
+            if len(want) == 1:
+                return st, ct, sd, next(iter(want))
+        return [0, 0], [1, 1], None, "OK"
+    for g in range(40 if tier == "quick" else 200):
+        plan = [one(valid=(r == 0 or rng.random() < 0.5)) for r in range(nprocs)]
+        rng.shuffle(plan)
+        lines = {}
+        for r, (st, ct, sd, w) in enumerate(plan):
+            nel = 1
+            for c in ct:
+                nel *= max(abs(c), 1)
+            kw = dict(f=0, v=2, mt=mtname, coll=1, form="vars" if sd else "vara", start=",".join(map(str, st)), count=",".join(map(str, ct)), data="hex:" + "a7" * (nel * xsz))
+            if sd:
+                kw["stride"] = ",".join(map(str, sd))
+            lines[r] = sc.add(r, "put", **kw)
+        sc.add("*", "barrier")
+        dline = sc.add(0, "fdiff", path=path, slot=0)
+        sc.add("*", "barrier")
+        codes = [w for (_, _, _, w) in plan]
+        allok = all(w == "OK" for w in codes)
+        els = []
+        if allok:
+            for (st, ct, sd, w) in plan:
+                els += elements(shape, st, ct, sd)
+        want_all = "OK" if allok else min((w for w in codes if w != "OK"), key=lambda n: EC[n])
+        reqs.append({"lines": lines, "diff": dline, "want_all": want_all, "els": els, "plan": [(p_[0], p_[1], p_[2], p_[3]) for p_ in plan]})
+    sc.add("*", "close", f=0)
+    return Case("c15_s_%05d" % i, nprocs, sc.lines, env={"PNETCDF_SAFE_MODE": "1", "PNETCDF_RELAX_COORD_BOUND": "0"},
+                meta={"safe_reqs": reqs, "reqs": [], "shape": shape, "isrec": False, "xsz": xsz, "version": version, "strict": True, "kind": "safe-coll", "feat": (version, "safe-coll", nprocs)})
+
+
 class C15(Check):
     id = "C15"
     exhaustive = False
@@ -296,8 +367,9 @@ class C15(Check):
             "accepted put changes only bytes of the addressed elements of the target variable (offsets from the independently decoded "
             "header) and the numrecs field.  Plus groups of 2-4 valid, element-disjoint (interleaved, strided) nonblocking requests "
             "or varn sub-requests on 2-3 dimensional variables with pairwise different dimension lengths, completed by one wait: "
-            "the aggregated write changes only the union of the addressed elements.  distinct = distinct (form, put/get, outcome, kind, version, strict) tuples")
-    assumptions = ["requests are issued in independent mode on one process (error precedence in collective mode is C08's subject)"]
+            "the aggregated write changes only the union of the addressed elements; and, in safe mode on 2-3 ranks, collective puts where "
+            "some ranks pass invalid requests: every rank returns the minimum code and no byte changes.  distinct = distinct (form, put/get, outcome, kind, version, strict) tuples")
+    assumptions = ["single requests are issued in independent mode on one process (error precedence in collective mode is C08's subject); the safe-mode section uses only requests whose reference outcome is a single code"]
 
     def generate(self, tier, rng):
         self.EC = load_error_codes(self.bld)
@@ -307,6 +379,8 @@ class C15(Check):
             yield gen_case(rng, i, [1, 2, 5][i % 3], kinds[(i // 3) % 4], strict=((i // 12) % 2 == 1), full_dim=0, tier=tier)
         for i in range(60 if tier == "quick" else 600):
             yield gen_multi_case(rng, i, [1, 2, 5][i % 3], tier)
+        for i in range(12 if tier == "quick" else 120):
+            yield gen_safe_case(rng, i, [1, 2, 5][i % 3], tier, self.EC)
 
     def features(self, res):
         return res.case.name
@@ -372,5 +446,34 @@ class C15(Check):
                 if bad:
                     v.append(Violation("stray|accepted|%s" % rq["form"], "%s start=%s count=%s stride=%s changed byte %d (ranges %s) outside the addressed elements of the target variable (begin %d)" % (
                         api, rq["start"], rq["count"], rq["stride"], bad[0], ranges[:5], tv.begin), res))
+                    break
+        for rq in m.get("safe_reqs", []):
+            want = 0 if rq["want_all"] == "OK" else EC[rq["want_all"]]
+            self.count("safe_mode_groups")
+            for r, line in rq["lines"].items():
+                e = res.ret(r).get(line)
+                if e is None:
+                    continue
+                self.features_seen.add(("safe-coll", rq["want_all"], m["version"]))
+                if e.geti("err") != want:
+                    v.append(Violation("safe|err|got=%s|want=%s" % (e.kv.get("err"), rq["want_all"]), "safe mode, collective put, per-rank requests %s: rank %d returned %s, every rank must return %s" % (
+                        rq["plan"], r, e.kv.get("err"), rq["want_all"]), res))
+            d = ret.get(rq["diff"])
+            if d is None:
+                continue
+            ranges = []
+            if d.kv.get("ranges"):
+                for x in d.kv["ranges"].split(","):
+                    a_, c_ = x.split("-")
+                    ranges.append((int(a_), int(c_)))
+            allowed_bytes = set()
+            for el in rq["els"]:
+                off = tv.begin + (el[0] * m["shape"][1] + el[1]) * m["xsz"]
+                allowed_bytes.update(range(off, off + m["xsz"]))
+            for (a_, c_) in ranges:
+                bad = [x for x in range(a_, c_) if x not in allowed_bytes]
+                if bad:
+                    v.append(Violation("safe|stray|%s" % ("rejected" if want else "accepted"), "safe mode, collective put, per-rank requests %s (expected %s): file byte %d changed (ranges %s)" % (
+                        rq["plan"], rq["want_all"], bad[0], ranges[:5]), res))
                     break
         return v
